@@ -201,9 +201,22 @@ def prove(prop_modules):
                 if not good:
                     res['ok'] = False
                     res.setdefault('failed_theorems', []).append(n)
+        if res['ok'] and os.environ.get('VERIF_TIER_CUR') == 'thorough' and not _LEANCHECKED.issuperset(prop_modules):
+            # independent re-check of the compiled modules by the toolchain's stand-alone kernel
+            t0 = time.time()
+            rc, out_ = run(['lake', 'env', 'leanchecker'] + list(prop_modules), cwd=LEAN, timeout=3000)
+            res['leanchecker'] = dict(rc=rc, seconds=round(time.time() - t0, 1), output=out_[-500:])
+            if rc != 0:
+                res['ok'] = False
+                res.setdefault('failed_theorems', []).append('leanchecker rejects %s' % ' '.join(prop_modules))
+            else:
+                _LEANCHECKED.update(prop_modules)
     if res['forbidden']:
         res['ok'] = False
     return res
+
+
+_LEANCHECKED = set()
 
 
 def failed_theorems(path, log):
@@ -291,6 +304,7 @@ class Check:
 
     def __init__(self, pid, tier):
         self.pid, self.tier = pid, tier
+        os.environ['VERIF_TIER_CUR'] = tier
         self.t0 = time.time()
         self.violations = []          # dicts: kind ('impl'|'correspondence'|'proof'), what, replay (dict)
         self.cases = 0
@@ -327,6 +341,8 @@ class Check:
         return None
 
     def known_finding(self, entry, still_fails, observed=''):
+        if still_fails and any(k['id'] == entry['id'] for k in self.known_printed):
+            return                      # already reported in an earlier sweep of this run
         if still_fails:
             line = 'KNOWN-FINDING: property=%s %s' % (self.pid, entry['what'])
             out(line)
@@ -336,7 +352,10 @@ class Check:
     def lean(self, modules, gen_names=()):
         self.gen = regenerate()
         self.gen_names = list(gen_names)
+        prev = (self.proof or {}).get('leanchecker')
         self.proof = prove(modules)
+        if prev and 'leanchecker' not in self.proof:
+            self.proof['leanchecker'] = prev
         return self.proof
 
     # -- verdict
@@ -400,6 +419,8 @@ class Check:
                        trusted_base=trusted or [], theorems=[dict(name=o['name'], axioms=o['axioms'], ok=o['ok']) for o in obs])
         if self.gen is not None:
             cov['translator'] = {k: v.get('tie') for k, v in self.gen.get('functions', {}).items()}
+        if self.proof is not None and self.proof.get('leanchecker'):
+            cov['leanchecker'] = self.proof['leanchecker']
         if self.programs:
             cov['programs'] = self.programs
         cov['known_findings_replayed'] = self.known_printed
